@@ -495,6 +495,48 @@ def metadata_grid_history():
     return h
 
 
+def aliasing_history():
+    """copies must not alias: after a copy, writing to either end (by a further copy onto an existing destination, a put, a completion) leaves the other
+    end as it was - also across buckets"""
+    h = [dict(op="create_bucket", bucket="abc"), dict(op="create_bucket", bucket="bkt-c"),
+         dict(op="put", bucket="abc", key="a", body=b"one-one-one", metadata={"a": "1"}), dict(op="put", bucket="abc", key="ab", body=b"two", metadata=None),
+         dict(op="copy", bucket="bkt-c", key="b/d", src_bucket="abc", src_key="a"),          # new destination
+         dict(op="copy", bucket="bkt-c", key="b/d", src_bucket="abc", src_key="ab"),         # existing destination
+         dict(op="get", bucket="abc", key="a"), dict(op="get", bucket="bkt-c", key="b/d"),
+         dict(op="copy", bucket="bkt-c", key="b/c", src_bucket="abc", src_key="a"), dict(op="copy", bucket="bkt-c", key="b/c", src_bucket="abc", src_key="a"),   # the same copy twice
+         dict(op="get", bucket="abc", key="a"), dict(op="get", bucket="bkt-c", key="b/c"),
+         dict(op="copy", bucket="abc", key="b0", src_bucket="abc", src_key="a"), dict(op="put", bucket="abc", key="b0", body=b"overwritten", metadata=None),
+         dict(op="get", bucket="abc", key="a"), dict(op="get", bucket="abc", key="b0"),
+         dict(op="copy", bucket="abc", key="zz/y", src_bucket="abc", src_key="a"), dict(op="put", bucket="abc", key="a", body=b"source rewritten", metadata=None),
+         dict(op="get", bucket="abc", key="zz/y"), dict(op="delete", bucket="abc", key="a"), dict(op="get", bucket="abc", key="zz/y"),
+         dict(op="list", bucket="abc"), dict(op="list", bucket="bkt-c"),
+         # a copy that carries a metadata directive and metadata of its own: whatever the backend makes of the directive, the source object
+         # (in another bucket) keeps its content and metadata
+         dict(op="put", bucket="abc", key="a", body=b"with-meta", metadata={"keep": "me"}),
+         dict(op="copy", bucket="bkt-c", key="b/e/f", src_bucket="abc", src_key="a", metadata_directive="REPLACE", metadata={"new": "meta"}),
+         dict(op="get", bucket="abc", key="a"), dict(op="head", bucket="abc", key="a"),
+         dict(op="copy", bucket="abc", key="b0", src_bucket="abc", src_key="a", metadata_directive="COPY", metadata={"ignored": "x"}),
+         dict(op="get", bucket="abc", key="a"), dict(op="copy", bucket="abc", key="a", src_bucket="abc", src_key="a", metadata_directive="REPLACE", metadata={"self": "copy"}),
+         dict(op="get", bucket="abc", key="ab"), dict(op="list", bucket="abc")]
+    return h
+
+
+def completion_grid_history():
+    """which part lists complete an upload, and what the object is then"""
+    P = lambda al, n, body: dict(op="mpu_part", bucket="abc", key="b/c", alias=al, cred="alice", part=n, body=body)
+    C = lambda al, parts, key="b/c": dict(op="mpu_complete", bucket="abc", key=key, alias=al, cred="alice", parts=parts)
+    big = lambda c: bytes([c]) * (MIN_PART + 2)
+    h = [dict(op="create_bucket", bucket="abc"), dict(op="mpu_create", bucket="abc", key="b/c", alias=0, cred="alice", metadata={"up": "load"}),
+         P(0, 1, big(49)), P(0, 2, big(50)), P(0, 3, big(51)),
+         C(0, [1, 3]), C(0, [2, 3]), C(0, [3]), C(0, [2]), C(0, [1, 2, 3, 4]), C(0, [1, 1]), C(0, [3, 2, 1]), C(0, []), dict(op="get", bucket="abc", key="b/c"),
+         C(0, [1, 2]), dict(op="get", bucket="abc", key="b/c"), C(0, [1, 2]),
+         dict(op="mpu_create", bucket="abc", key="b/c", alias=1, cred="alice", metadata=None), P(1, 1, b"abc"), P(1, 2, big(52)), C(1, [1, 2]),
+         P(1, 1, big(53)), C(1, [1, 2], key="b/d"), dict(op="get", bucket="abc", key="b/d"), dict(op="get", bucket="abc", key="b/c"),
+         dict(op="mpu_create", bucket="abc", key="a", alias=2, cred="alice", metadata=None), P(2, 1, b"x"), C(2, [1]), dict(op="get", bucket="abc", key="a"),
+         dict(op="list", bucket="abc")]
+    return h
+
+
 PRELUDE = """Definition c18_all (U : list bytes) (mp : N) (h : list op) : bytes :=
   run_outputs mp h ++ [10; 35; 10] ++ run_state mp h ++ [10; 35; 10] ++ fs_history mp h
   ++ [10; 35; 10] ++ show_bool (universe_ok U) ++ [44] ++ show_bool (hist_okb U mp empty_fs h).
@@ -588,7 +630,7 @@ def run(ctx):
         ctx.violation(dict(stage="proof", kind="theorem or build broken", issues=r["issues"]), has_input=False)
     rng = ctx.rng
     plan = [(30, 40, False), (6, 25, True)] if ctx.quick else [(400, 60, False), (60, 40, True)]
-    hists = [gen_history(rng, n, big) for cnt, n, big in plan for _ in range(cnt)] + [part_copy_history(), metadata_grid_history()]
+    hists = [gen_history(rng, n, big) for cnt, n, big in plan for _ in range(cnt)] + [part_copy_history(), metadata_grid_history(), aliasing_history(), completion_grid_history()]
     ctx.probes = 0
     universe = "[" + ";".join(cb(k) for k in KEYS) + "]"
     nconf = 6 if ctx.quick else 60
